@@ -41,7 +41,7 @@ PROBES = [
     "probe.runtime_error_line", "probe.runtime_error_after_effects", "probe.continued_line",
     "probe.closure_call", "probe.recursion", "probe.echo_seen", "probe.use_after_reject", "probe.two_rejects_in_a_row",
     "probe.blank_entry", "probe.continued_line_closed_by_blank", "probe.comment_only_line", "probe.runtime_error_inside_call",
-    "probe.function_literal_in_container", "probe.block_local_let", "probe.late_builtins", "probe.float_literal", "probe.same_body_other_arity", "probe.comment_before_continuation", "probe.string_spans_continuation",
+    "probe.function_literal_in_container", "probe.block_local_let", "probe.late_builtins", "probe.float_literal", "probe.same_body_other_arity", "probe.brace_char_literal", "probe.entry_starts_with_quit_name", "probe.comment_before_continuation", "probe.string_spans_continuation",
 ]
 THOROUGH_ONLY_PROBES = ["probe.long_session"]
 COMPONENTS = {
@@ -52,7 +52,8 @@ COMPONENTS = {
 }
 
 # "first", "last", "time" shadow builtin functions that the generator itself never calls
-VARS = ["a", "b", "c", "d", "e", "first", "last", "time"]
+# "quitx" starts like the REPL's quit command (an entry may begin with it: `quitx = ...`)
+VARS = ["a", "b", "c", "d", "e", "first", "last", "time", "quitx"]
 FUNS = ["f", "g", "h"]
 UNDEF = ["zzz", "yyy", "undef1", "nope"]
 MARK = "@@MARK@@"
@@ -128,7 +129,9 @@ def _ok_stmt(rng, env, stats):
             "puts(sort([3, %s, 1]));" % e1, 'puts(join(chars("abc"), "-"));', "puts(is_error(%s));" % e1, 'puts(toupper("abc") + str(%s));' % e1,
             'puts(int("42") + %s);' % e1, "puts(strerror(2));", "puts(rest([1, %s, 3]));" % e1, 'puts(tolower("ABC"));', "puts(char(65));",
             'puts(len(encode_utf8("xyz")));', 'puts(decode_utf8(encode_utf8("ok")));', "puts(round(2.567, 1));", 'puts(contains(map {"k": 1}, "k"));',
-            'puts(get([5, 6], 1));', "puts(pop([1, 2, %s]));" % e1, 'puts(format("{}-{}", %s, 7));' % e1, "puts(float(3) + 0.5);", "puts(byte(66));",
+            'puts(get([5, 6], 1));', "puts(pop([1, 2, %s]));" % e1,
+            # character literals that look like block / string delimiters to a naive line scanner
+            "let lb = '{'; puts(lb);", "puts('}');", "let dq = '\"'; puts(dq);", "puts('{'); puts(%s);" % e1, 'puts(format("{}-{}", %s, 7));' % e1, "puts(float(3) + 0.5);", "puts(byte(66));",
             "puts(is_error(open(\"/nonexistent/zz\")));",
         ])
         if rng.chance(35):
@@ -490,6 +493,10 @@ def check(model, results):
             inc("probe.float_literal")
         if "fn(n, m)" in ln["text"] and kind == "ok":
             inc("probe.same_body_other_arity")
+        if re.search(r"'[{}\"]'", ln["text"]) and kind == "ok":
+            inc("probe.brace_char_literal")
+        if ln["text"].startswith("quitx") and kind == "ok":
+            inc("probe.entry_starts_with_quit_name")
         if kind in ("ok", "probe") and re.search(r"\b(sort|chars|join|is_error|strerror|rest|pop|format|decode_utf8)\(", ln["text"]):
             inc("probe.late_builtins")
         if "// note\n" in ln["text"]:
